@@ -106,7 +106,10 @@ def native_run(work, overlay, pkg, runs, tag="native", timeout=900):
     rf = os.path.join(work, tag + "_runs.json")
     of = os.path.join(work, tag + "_out.jsonl")
     json.dump(runs, open(rf, "w"))
-    env = dict(GOENV, ZZV_REPLAY=rf, ZZV_OUT=of)
+    # scratch files of the harnesses and of fzf itself (history, temp scripts, fifos) stay inside the work dir
+    tmpd = os.path.join(work, "tmp")
+    os.makedirs(tmpd, exist_ok=True)
+    env = dict(GOENV, ZZV_REPLAY=rf, ZZV_OUT=of, TMPDIR=tmpd)
     cmd = ["go", "test", "-vet=off", "-count=1", "-overlay", gov, "-run", "^TestZZReplay$", pkg]
     try:
         r = subprocess.run(cmd, cwd=REPO, env=env, capture_output=True, text=True, timeout=timeout)
